@@ -198,7 +198,7 @@ func Harness_C11_services() {
 			cande = append(cande, vr.DeepEq(got.EndDate, cal[hasCal].end.in(zone)))
 		}
 		for i := range ex {
-			if ex[i].svc == s {
+			if ex[i].svc == s && ex[i].typ != "3" { // rows of an ignored type are not exception dates of the service
 				cands = append(cands, vr.DeepEq(got.StartDate, ex[i].date.in(zone)))
 				cande = append(cande, vr.DeepEq(got.EndDate, ex[i].date.in(zone)))
 			}
